@@ -3,6 +3,7 @@ import TonicModel.Basic.ConnScript
 import TonicModel.Basic.ErrChain
 import TonicModel.Model.Reconnect
 import TonicModel.Spec.Reconnect
+import Driver.C14Bal
 namespace DriverC14
 open Proto ConnScript Reconnect ErrChain
 
@@ -364,6 +365,7 @@ def parseNBuild (t : String) : Option NBuild :=
 
 def handle (case obs : List String) : String × String :=
   match case with
+  | "bal" :: rest => DriverC14Bal.handle rest obs
   | ["unit", m, envS, opsS] =>
     match mode? m, ansOfChars 0 (chars envS), parseAll (fun s => (s.toList.head?).bind uop?) ((chars opsS).map (String.singleton ·)) with
     | some isLazy, some env, some ops =>
